@@ -131,10 +131,10 @@ func readEvents(path string) []pipeEvent {
 }
 
 type c04Plan struct {
-	Kind     string    `json:"kind"` // kill-point | random-kill | graceful
-	Triggers []trigger `json:"triggers,omitempty"`
-	DelayMs  int       `json:"delay_ms,omitempty"`
-	Seencheck bool     `json:"seencheck"`
+	Kind      string    `json:"kind"` // kill-point | random-kill | graceful
+	Triggers  []trigger `json:"triggers,omitempty"`
+	DelayMs   int       `json:"delay_ms,omitempty"`
+	Seencheck bool      `json:"seencheck"`
 }
 
 func c04Plans(r *vc.Run) []c04Plan {
@@ -368,14 +368,14 @@ func c04(r *vc.Run) int {
 		os.RemoveAll(dir)
 	})
 	cov := map[string]any{
-		"evaluations":             int(evaluations.Load()),
-		"distinct_nontrivial":     classes.Len(),
-		"rule":                    "one evaluation = one (run 1 dies, run 2 restarts the same job) pair; death = SIGKILL at the n-th hit of an instrumented point in the claim / insert / fetch / WARC-feedback / finish / delete / add paths, SIGKILL at a seeded random time, or a graceful stop at a trigger; distinct = distinct (death kind and point, killed by signal, CLAIMED rows present, FRESH rows present) classes",
-		"samples":                 samples.List(),
-		"queue_rows_checked":      int(rowsChecked.Load()),
-		"finished_seeds_checked":  int(finishedChecked.Load()),
-		"classes":                 classes.Counts(),
-		"pairs_planned":           len(plans),
+		"evaluations":            int(evaluations.Load()),
+		"distinct_nontrivial":    classes.Len(),
+		"rule":                   "one evaluation = one (run 1 dies, run 2 restarts the same job) pair; death = SIGKILL at the n-th hit of an instrumented point in the claim / insert / fetch / WARC-feedback / finish / delete / add paths, SIGKILL at a seeded random time, or a graceful stop at a trigger; distinct = distinct (death kind and point, killed by signal, CLAIMED rows present, FRESH rows present) classes",
+		"samples":                samples.List(),
+		"queue_rows_checked":     int(rowsChecked.Load()),
+		"finished_seeds_checked": int(finishedChecked.Load()),
+		"classes":                classes.Counts(),
+		"pairs_planned":          len(plans),
 	}
 	return r.Finish("fault_enumeration", cov, []string{
 		"a killed process, not a killed machine: the page cache survives",
